@@ -121,6 +121,8 @@ MC_METHODS = {
     "wait_for_cores_to_reach_state": (lambda r: (r.choice(
         ["idle", ["run", "idle"], ("wait", "pause")]), 0), ["app_id"],
         "app-global"),
+    "wait_for_cores_to_reach_state+poll": (lambda r: (r.choice(
+        ["idle", "run", ("wait", "pause")]), 9999), ["app_id"], "app-global"),
     "load_routing_tables": (lambda r: ("TABLES",), ["app_id"], "app-tables"),
     "flood_fill_aplx": (lambda r: r.choice([("APLX", "TARGETS"), ("MAP",)]),
                         ["app_id"], "app-global"),
@@ -132,6 +134,8 @@ MC_METHODS = {
     "send_scp": (lambda r: (0,), ["x", "y", "p"], "mem"),
     "application": (lambda r: (), ["app_id"], "application"),
 }
+EXTRA_KW = {"clear": {"clear": True},
+            "poll": {"poll_interval": 0.05, "timeout": 0.22}}
 DEFAULTS = {"read": {"p": 0}, "write": {"p": 0},
             "read_struct_field": {"p": 0}, "write_struct_field": {"p": 0},
             "get_software_version": {"x": 255, "y": 255, "processor": 0},
@@ -140,6 +144,9 @@ DEFAULTS = {"read": {"p": 0}, "write": {"p": 0},
 KWONLY = {"send_scp", "sdram_alloc", "sdram_alloc+clear",
           "sdram_alloc_as_filelike", "sdram_free",
           "set_led", "flood_fill_aplx", "load_application"}
+# methods with a documented failure path that issues further commands
+REFUSABLE = {"sdram_alloc", "sdram_alloc+clear", "sdram_alloc_as_filelike",
+             "load_routing_table_entries", "load_routing_tables"}
 BMP_METHODS = {
     "get_software_version": (lambda r: (), "board"),
     "read_adc": (lambda r: (), "board"),
@@ -169,6 +176,7 @@ def gen(cls, idx, rng, tier):
         name = sorted(MC_METHODS)[(idx // len(PLANS)) % len(MC_METHODS)]
         return dict(kind="mc", method=name, plan=PLANS[idx % len(PLANS)],
                     seed=rng.randrange(1 << 30),
+                    refuse=name in REFUSABLE and rng.random() < .3,
                     resolved=dict(x=rng.randrange(3), y=rng.randrange(3),
                                   p=rng.randrange(1, 17),
                                   processor=rng.randrange(1, 17),
@@ -245,8 +253,10 @@ def dests(datagrams):
     return out
 
 
-def fresh(seed):
+def fresh(seed, refuse=False):
     m = M.Machine(3, 3, buffer_size=256)
+    for c in m.chips.values():
+        c.alloc_fail = c.rtr_fail = bool(refuse)
     import random
     rng = random.Random(seed)
     for c in m.chips.values():
@@ -290,7 +300,7 @@ def call_with_plan(mc, name, base, cargs, resolved, decoy, plan, kwonly,
     """-> (callable performing the call inside the right context blocks,
     did-it-use-context-or-default)"""
     defaults = DEFAULTS.get(name, {})
-    extra_kw = {"clear": True} if name.endswith("+clear") else {}
+    extra_kw = EXTRA_KW.get(name.partition("+")[2], {})
     real = name.split("+")[0]
     meth0 = getattr(mc, real)
     meth = (lambda *a, **k: meth0(*a, **dict(extra_kw, **k))) if extra_kw \
@@ -361,7 +371,11 @@ def run_mc(case, ctx):
     tmp = tempfile.mkdtemp(prefix="rv-c18-")
     try:
         base = materialise(base0, tmp, rt)
-        A, B = fresh(case["seed"]), fresh(case["seed"])
+        refuse = bool(case.get("refuse"))
+        mcm = importlib.import_module(
+            "rig.machine_control.machine_controller")
+        refusal = (mcm.SpiNNakerMemoryError, mcm.SpiNNakerRouterError)
+        A, B = fresh(case["seed"], refuse), fresh(case["seed"], refuse)
         stack0 = A.mc.get_context_arguments()
         markA, markB = len(A.net.log), len(B.net.log)
         go, used_ctx, missing, visible_p = call_with_plan(
@@ -374,6 +388,10 @@ def run_mc(case, ctx):
             resA = go()
             excA = None
         except TypeError as e:
+            resA, excA = None, e
+        except refusal as e:
+            check(refuse, "unexpected-exception", "%s(%s): %s: %s" %
+                  (name, plan_, type(e).__name__, e), **where)
             resA, excA = None, e
         except Exception as e:
             raise Violation("unexpected-exception", "%s(%s): %s: %s" %
@@ -393,17 +411,31 @@ def run_mc(case, ctx):
                   (len(dgA), missing), **where)
             ctx.mark_nontrivial()
             return
-        check(excA is None, "call-rejected", "%s(%s): %s" %
-              (name, plan_, excA), **where)
+        if refuse:
+            ctx.hit("refused_by_machine")
+            check(isinstance(excA, refusal), "refusal-not-reported",
+                  "%s(%s) on a machine that refuses the allocation: %r / %r"
+                  % (name, plan_, resA, excA), **where)
+        else:
+            check(excA is None, "call-rejected", "%s(%s): %s" %
+                  (name, plan_, excA), **where)
         if name == "application":
             return run_application(ctx, A, resA, resolved, where)
         # ---- twin: everything explicit on a fresh controller
         B.activate()
         try:
-            extra = {"clear": True} if name.endswith("+clear") else {}
+            extra = EXTRA_KW.get(name.partition("+")[2], {})
             getattr(B.mc, name.split("+")[0])(
                 *materialise(base0, tmp, rt),
                 **dict(extra, **{a: resolved[a] for a in cargs}))
+            check(not refuse, "twin-failed", "explicit call was not refused",
+                  **where)
+        except refusal as e:
+            check(refuse and type(e) is type(excA) and str(e) == str(excA),
+                  "refusal-differs-from-explicit-call", "%s / %s" % (excA, e),
+                  **where)
+        except Violation:
+            raise
         except Exception as e:
             raise Violation("twin-failed", "%s: %s" % (type(e).__name__, e),
                             **where)
@@ -436,14 +468,14 @@ def run_mc(case, ctx):
                     "len"),
                dests(dgA)[:3], dests(dgB)[:3]), **where)
         check(dgA, "no-datagram", "", **where)
-        absolute(name, family, cargs, resolved, dests(dgA), where)
+        absolute(name, family, cargs, resolved, dests(dgA), where, refuse)
         if used_ctx:
             ctx.mark_nontrivial()
     finally:
         shutil.rmtree(tmp, ignore_errors=True)
 
 
-def absolute(name, family, cargs, R, ds, where):
+def absolute(name, family, cargs, R, ds, where, refused=False):
     x, y = R.get("x"), R.get("y")
     if family in ("mem",):
         want = (x, y, R["p"])
@@ -499,7 +531,9 @@ def absolute(name, family, cargs, R, ds, where):
               **where)
     elif family == "app-tables":
         allocs = [d for d in ds if d[1] == M.CMD["alloc"]]
-        check({d[0] for d in allocs} == {(1, 1, 0), (0, 2, 0)} and
+        chips = {d[0] for d in allocs}
+        check((chips == {(1, 1, 0), (0, 2, 0)} or
+               (refused and chips and chips < {(1, 1, 0), (0, 2, 0)})) and
               all((d[2][0] >> 8) & 0xff == R["app_id"] for d in allocs),
               "wrong-app-id-or-chip", repr(allocs), **where)
 
